@@ -47,6 +47,25 @@ SCOPE_PROGS = [
 
 
 # ---- the property's own membership rule, as an encoder into models/Scope.v ------------------------------------------
+def _header_zoo():
+    """nested scopes whose headers hold every combination of the parts that belong to the ENCLOSING scope: parameter annotations and defaults of every parameter kind
+    (with and without default, in every position), return annotation, decorators, class bases / keywords / ** in every combination, lambda defaults"""
+    out = []
+    params = ['a: A1', 'b: A2 = d2', 'c = d3', '/', 'e: A4', '*v: A5', 'f: A6', 'g: A7 = d7', 'h = d8', 'i: A9', '**k: A10']
+    forms = ['a: A1, b: A2 = d2', 'a: A1, /, e: A4', '*, f: A6, g: A7 = d7, i: A9', '*v: A5, f: A6, h = d8, i: A9', '*, f: A6', '*, g: A7 = d7', '*, f: A6, i: A9', '**k: A10',
+             'a: A1, /, e: A4 = d4, *v: A5, f: A6, g: A7 = d7, **k: A10', 'c = d3, *, h = d8', '*v, f, g = d7, i', 'a, /, *, f']
+    for i, fm in enumerate(forms):
+        out.append(f'def outer{i}(x):\n    @dec{i}(x)\n    def inner({fm}) -> R{i}:\n        return loc\n    async def ainner({fm}):\n        pass\n    return inner\n')
+        if ':' not in fm:
+            out.append(f'def outerl{i}(x):\n    return lambda {fm}: body_name\n')
+    heads = ['', '()', '(B1)', '(B1, B2)', '(metaclass=Meta)', '(metaclass=Meta, registry=reg, **extra_kw)', '(B1, metaclass=Meta)', '(*bases)', '(*bases, k=kv)', '(k=kv, *bases)', '(B1, *bases, k=kv, **kw)', '(**kw)']
+    for i, h in enumerate(heads):
+        out.append(f'def outerc{i}(x):\n    @cdec{i}\n    class Inner{h}:\n        attr = inside\n    return Inner\n')
+        out.append(f'class Outer{i}:\n    class Inner{h}:\n        attr = inside\n')
+    out.append('def outerg(xs):\n    return [e for e in first_it(xs) if c1 for f in second_it], {k: v for k, v in items if k}, (g for g in (h for h in inner_first))\n')
+    return out
+
+
 def split_parts(a):
     """(outer children, inner children) of a scope-opening AST node; children may be re-parented to the scope node"""
     kids = list(ast.iter_child_nodes(a))
@@ -384,7 +403,7 @@ def run(ctx: Ctx):
     ok = stage_translate(ctx)
     if ok:
         ctx.build_props()
-    progs = SCOPE_PROGS + corpus(ctx.rng, gen=ctx.scale(30, 250))
+    progs = SCOPE_PROGS + _header_zoo() + corpus(ctx.rng, gen=ctx.scale(30, 250))
     run_guarded(ctx, stage_scope_walk, progs)
     run_guarded(ctx, stage_symbols, progs)
     run_guarded(ctx, stage_symbols_model, progs)
